@@ -47,3 +47,35 @@ Fixpoint mism_from (i : nat) (cs : list case) : list (nat * nat) :=
                 end
   end.
 Definition mismatches (cs : list case) : list (nat * nat) := mism_from 0 cs.
+
+(* ---------------------------------------------------------------- machine integers (appended)
+   CaseM: the same kinds of cases run through the MACHINE-INTEGER twin Model/Limit64.v with the
+   offsets / counts as they are (nothing clamped); CaseP: the LIMIT numerals of a statement text
+   through the lexer + parser twins against the Start / Count fields of the plan BuildPlan built.
+   Both are judged by Corr/C08M.v (codes there).  The case files define their list with the type
+   [xcase]; the cases above are embedded ([Case] is [XCase] there). *)
+From KV Require Import Corr.C08M.
+
+Inductive xcase :=
+  | XBase (c : case)
+  | CaseM (m : mcase)
+  | CaseP (p : pcase).
+Definition XCase (k B s n : nat) (bs : list (list nat)) (ob orow : option (list nat)) : xcase :=
+  XBase (Case k B s n bs ob orow).
+
+Definition xcheck_case (c : xcase) : nat :=
+  match c with
+  | XBase c => check_case c
+  | CaseM m => check_mcase m
+  | CaseP p => check_pcase p
+  end.
+
+Fixpoint xmism_from (i : nat) (cs : list xcase) : list (nat * nat) :=
+  match cs with
+  | [] => []
+  | c :: cs' => match xcheck_case c with
+                | 0 => xmism_from (S i) cs'
+                | k => (i, k) :: xmism_from (S i) cs'
+                end
+  end.
+Definition xmismatches (cs : list xcase) : list (nat * nat) := xmism_from 0 cs.
